@@ -1239,6 +1239,10 @@ func bindInit(c *core.Case) {
 	ws := r.Intn(4) == 0
 	withRes := r.Intn(4) != 0
 	s := pick(r, locals) + "@" + pick(r, domains)
+	if r.Intn(6) == 0 {
+		// no localpart: e.g. an anonymous login configured with just the domain
+		s = pick(r, domains)
+	}
 	if withRes {
 		s += "/" + pick(r, bindResources)
 	}
@@ -1246,13 +1250,57 @@ func bindInit(c *core.Case) {
 	if err != nil {
 		origin = jid.MustParse("me@example.net/res")
 	}
-	replyKind := []string{"result", "result", "result", "result-other-resource", "result-special", "error", "wrong-id", "type-get", "type-set", "no-type", "truncated", "text", "result-no-jid", "other-element", "wrong-ns", "error-no-child"}[r.Intn(16)]
+	replyKind := []string{"result", "result", "result-other-resource", "result-special",
+		"result-other-local", "result-other-local", "result-other-domain", "result-domain-only", "result-unrelated",
+		"error", "wrong-id", "type-get", "type-set", "no-type", "truncated", "text", "result-no-jid", "other-element", "wrong-ns", "error-no-child"}[r.Intn(20)]
+	// The server's choice is independent of what the client was configured
+	// with: same address, other resource, other or newly given localpart
+	// (anonymous login, aliased accounts), other domain, no localpart at all.
+	newRes := func() string {
+		switch r.Intn(3) {
+		case 0:
+			return pick(r, hardRes)
+		case 1:
+			return "srv-" + pick(r, safeIDs)
+		}
+		if rp := origin.Resourcepart(); rp != "" {
+			return rp
+		}
+		return pick(r, plainRes)
+	}
+	mk := func(local, domain, res string) jid.JID {
+		str := domain
+		if local != "" {
+			str = local + "@" + domain
+		}
+		j, err := jid.Parse(str + "/" + res)
+		if err != nil {
+			j, _ = origin.WithResource("assigned")
+		}
+		return j
+	}
+	otherOf := func(cur string, pool []string) string {
+		for {
+			if x := pick(r, pool); x != cur {
+				return x
+			}
+		}
+	}
 	assigned := origin
 	switch replyKind {
 	case "result-other-resource":
 		assigned, _ = origin.WithResource("srv-" + pick(r, safeIDs))
 	case "result-special":
 		assigned, _ = origin.WithResource(pick(r, hardRes))
+	case "result-other-local":
+		// another localpart, or a localpart where the origin had none
+		assigned = mk(otherOf(origin.Localpart(), append([]string{"c5a7b3d1", "me.primary"}, locals...)), origin.Domainpart(), newRes())
+	case "result-other-domain":
+		assigned = mk(origin.Localpart(), otherOf(origin.Domainpart(), domains), newRes())
+	case "result-domain-only":
+		assigned = mk("", pick(r, domains), newRes())
+	case "result-unrelated":
+		assigned = mk(otherOf(origin.Localpart(), locals), otherOf(origin.Domainpart(), domains), newRes())
 	}
 	if assigned.Resourcepart() == "" {
 		assigned, _ = origin.WithResource("assigned")
@@ -1274,7 +1322,7 @@ func bindInitCase(c *core.Case, ws bool, origin jid.JID, replyKind string, assig
 		eid := hspeer.Esc(id)
 		bind := `<bind xmlns='` + hspeer.NSBind + `'><jid>` + hspeer.Esc(assigned.String()) + `</jid></bind>`
 		switch replyKind {
-		case "result", "result-other-resource", "result-special":
+		case "result", "result-other-resource", "result-special", "result-other-local", "result-other-domain", "result-domain-only", "result-unrelated":
 			return `<iq` + iqns + ` type='result' id='` + eid + `'>` + bind + `</iq>`
 		case "error":
 			return `<iq` + iqns + ` type='error' id='` + eid + `'><bind xmlns='` + hspeer.NSBind + `'/><error type='cancel'><conflict xmlns='urn:ietf:params:xml:ns:xmpp-stanzas'/></error></iq>`
@@ -1361,9 +1409,28 @@ func bindInitCase(c *core.Case, ws bool, origin jid.JID, replyKind string, assig
 	}
 	// --- the outcome
 	switch replyKind {
-	case "result", "result-other-resource", "result-special":
+	case "result", "result-other-resource", "result-special", "result-other-local", "result-other-domain", "result-domain-only", "result-unrelated":
+		rel := "same-bare"
+		switch {
+		case assigned.Bare().Equal(origin.Bare()):
+		case assigned.Domainpart() != origin.Domainpart():
+			rel = "other-domain"
+		case origin.Localpart() == "":
+			rel = "localpart-added"
+		case assigned.Localpart() == "":
+			rel = "localpart-removed"
+		default:
+			rel = "other-localpart"
+		}
+		c.Count("bind_assigned:"+rel, 1)
+		if hasSpecial(assigned.Resourcepart()) {
+			c.Count("bind_assigned_special_resource", 1)
+		}
 		if cerr == nil {
 			c.Count("bind_results_accepted", 1)
+			if rel != "same-bare" {
+				c.Count("bind_results_accepted_with_other_bare_address", 1)
+			}
 			if !ready(sess) {
 				c.Violate("hdr:bind:not-ready", "bind result accepted (nil error) but the session is not Ready: %v", sess.State())
 			}
@@ -1609,7 +1676,8 @@ func Prop() *core.Prop {
 		Require: []string{"emit_direct", "emit_session_initiator", "emit_session_receiver", "emitted_headers_parsed", "lib2lib_established",
 			"accept_direct", "accept_session", "valid_headers_accepted", "invalid_headers_refused", "refused:version", "refused:no-id", "refused:name", "refused:content-ns",
 			"restart_cases", "restart_unchanged_established", "restart_changed_address_cases",
-			"stream_error_cases", "bind_initiator_cases", "bind_requests_parsed", "bind_receiver_cases", "bind_replies_parsed", "bind_callback_invocations", "bind_bad_replies_refused"},
+			"stream_error_cases", "bind_initiator_cases", "bind_requests_parsed", "bind_receiver_cases", "bind_replies_parsed", "bind_callback_invocations", "bind_bad_replies_refused",
+			"bind_assigned:same-bare", "bind_assigned:other-localpart", "bind_assigned:localpart-added", "bind_assigned:localpart-removed", "bind_assigned:other-domain", "bind_assigned_special_resource", "bind_results_accepted_with_other_bare_address"},
 	}
 }
 
